@@ -134,6 +134,57 @@ fn dump_value(v: &toml_edit::Value, out: &mut Vec<String>) {
     }
 }
 
+/// the layout of a document: like `dump_item`, but telling [header] tables (H) and [[arrays of
+/// tables]] (A) from inline tables (T) and arrays (L)
+fn lay_item(item: &toml_edit::Item, out: &mut Vec<String>) {
+    match item {
+        toml_edit::Item::None => out.push("NONE".into()),
+        toml_edit::Item::Value(v) => lay_value(v, out),
+        toml_edit::Item::Table(t) => {
+            out.push(format!("H{}", t.len()));
+            for (k, v) in t.iter() {
+                out.push(format!("S{}", hex_nodash(k)));
+                lay_item(v, out);
+            }
+        }
+        toml_edit::Item::ArrayOfTables(a) => {
+            out.push(format!("A{}", a.len()));
+            for t in a.iter() {
+                out.push(format!("H{}", t.len()));
+                for (k, v) in t.iter() {
+                    out.push(format!("S{}", hex_nodash(k)));
+                    lay_item(v, out);
+                }
+            }
+        }
+    }
+}
+
+fn lay_value(v: &toml_edit::Value, out: &mut Vec<String>) {
+    match v {
+        toml_edit::Value::Array(a) => {
+            out.push(format!("L{}", a.len()));
+            for e in a.iter() {
+                lay_value(e, out);
+            }
+        }
+        toml_edit::Value::InlineTable(t) => {
+            out.push(format!("T{}", t.len()));
+            for (k, e) in t.iter() {
+                out.push(format!("S{}", hex_nodash(k)));
+                lay_value(e, out);
+            }
+        }
+        other => dump_value(other, out),
+    }
+}
+
+fn doc_layout(d: &toml_edit::DocumentMut) -> String {
+    let mut out = Vec::new();
+    lay_item(d.as_item(), &mut out);
+    out.join(",")
+}
+
 fn doc_tree(d: &toml_edit::DocumentMut) -> String {
     let mut out = Vec::new();
     dump_item(d.as_item(), &mut out);
@@ -181,9 +232,13 @@ fn cmd_ser(args: &Args) -> String {
                     Enc::Text(s) => {
                         if let Ok(d) = s.parse::<toml_edit::DocumentMut>() {
                             parts.push(format!("tree:{}", doc_tree(&d)));
+                            parts.push(format!("lay:{}", doc_layout(&d)));
                         }
                     }
-                    Enc::Doc(d) => parts.push(format!("tree:{}", doc_tree(d))),
+                    Enc::Doc(d) => {
+                        parts.push(format!("tree:{}", doc_tree(d)));
+                        parts.push(format!("lay:{}", doc_layout(d)));
+                    }
                     _ => {}
                 }
                 for (tag, res) in with_type(&ty, || decode_enc::<DynOwned>(&enc)) {
